@@ -433,7 +433,7 @@ func runC13(ctx *Ctx) {
 	amfs := []int64{1, 0, 1 << 32, 1<<40 - 1, 255, 65536}
 	rans := []int64{1, 0, 1<<32 - 1, 65535, 1 << 24}
 	psis := []int64{1, 0, 15, 255, 16}
-	ips := []string{"192.168.61.3", "0.0.0.0", "255.255.255.255", "1.2.3.4"}
+	ips := []string{"192.168.61.3", "0.0.0.0", "255.255.255.255", "1.2.3.4", "::ffff:10.45.0.7"} // (the last: an IPv4 address written in IPv4-mapped form is still that IPv4 address)
 	nasLens := []int{20, 0, 1, 127, 128, 255, 256, 2000, 5000}
 	if ctx.Thorough {
 		nasLens = nil
@@ -617,6 +617,25 @@ func runC13(ctx *Ctx) {
 			run(bd.name, bd.class, bd.msg, bd.proc, bd.uses, call, variant{"default", base, ""}, fmt.Sprintf("[NGSetup plmn=%x through the wrapper only] ", plmn))
 		}
 	}
+	// a PDU value that was built is the caller's: a later NG Setup announcing another PLMN must not change what it encodes to
+	for _, bd := range builders {
+		tp.BuildNGSetupRequest(plmns[0])
+		base := def
+		base.plmn = plmns[0]
+		var pdu ngapType.NGAPPDU
+		if perr := recoverErr(func() { pdu = bd.build(base) }); perr != nil {
+			continue
+		}
+		enc1, err1 := ngap.Encoder(pdu)
+		tp.BuildNGSetupRequest(plmns[2])
+		enc2, err2 := ngap.Encoder(pdu)
+		cs := fmt.Sprintf("%s built after [NGSetup plmn=%x], encoded, [NGSetup plmn=%x], encoded again", bd.name, plmns[0], plmns[2])
+		l.Case(cs, true, "")
+		if (err1 == nil) != (err2 == nil) || !bytes.Equal(enc1, enc2) {
+			r.Violate("builder/"+bd.name+"/built-value-changed-by-a-later-NG-Setup", cs, fmt.Sprintf("%x then %x (%v %v)", enc1, enc2, err1, err2), nil)
+		}
+	}
+	tp.BuildNGSetupRequest(def.plmn)
 	// NG Setup: gNB id lengths 22..32 (all) x names x PLMNs
 	w0 := wrappers[0]
 	for bits := uint64(22); bits <= 32; bits++ {
